@@ -139,7 +139,7 @@ def huge_image_lines(rng, tier):
         n = (2**32 + rng.randint(2**27, 2**29)) // L
         size = 720 + n * L
         salt = rng.randrange(2**31)
-        rpc = rng.choice([1, 2, 3, 1024])
+        rpc = rng.choice([1, 2, 3, 7])       # (a request is rpc lines long: keep the computed content per request small)
         ranges = [(720 + i * L + P, 720 + (i + 1) * L) for i in range(n)]
         arr = Array(fs=_VirtualFS(size, salt), url="IMG-virtual", byte_ranges=ranges, shape=(n, m),
                     dtype="uint16" if tc == "IU2" else "complex64", type_code=tc, records_per_chunk=rpc)
